@@ -107,9 +107,11 @@ func (r Relation) OrderedValues() ValueEnumerator {
 }
 
 func (r Relation) ArrayEnumerator() ValueEnumerator {
+	// Order the rows by their attributes in name order, as tuples compare: the
+	// stored column order differs between equal relations (a join appends columns).
 	return &relationEnumerator{
 		attrs: r.attrMap,
-		i:     r.rows.OrderedRange(r.p),
+		i:     r.rows.OrderedRange(r.p.compose(r.getIndices(r.attrs.GetSorted()))),
 	}
 }
 
